@@ -231,9 +231,26 @@ KEPT_ALIVE = []          # suspended list_names generators that stay referenced 
 def earlier_call(P, r):
     """one arbitrary earlier call on the same parser: failed parses at bracket depth or after complete lines, abandoned / suspended-and-kept /
     failing list_names, evals that fail or succeed, with a dict, with names=None, with a read-only mapping"""
-    k = r.randrange(12)
+    k = r.randrange(15)
     try:
-        if k == 0:
+        if k == 12:
+            # arithmetic that fails midway (invalid operation, overflow, division by zero, a refused quantize) or raises decimal signals
+            P.eval(r.choice(['(0 - 8) ** 0.5', '10 ** 999999999', '0 ** (0 - 1)', '(0 - 2.5) ** 1.5', 'round(1.5, 200)', '10 ** 999999 * 10 ** 999999', '1 / 0 + 1',
+                             'x = 1\nx /= 0', '10 ** (0 - 2000000)', 'sum([1, "a"])', 'max([])', 'int("x")', 'float("1e999") * 0']), {}, None, 200)
+        elif k == 13:
+            # a text that fails at parse time, submitted through eval together with a names mapping that binds builtin and ordinary names
+            P.eval(r.choice(['1 +', 'x = )', 'a b', 'f(1,\n2', '"unterminated']), {'rand': (lambda *a: 4), 'shuffle': (lambda l: l), 'len': 5, 'x': 'stale', 'max': 1, 'str': 2, 'a': 'stale-a', 'b': 9,
+                                                                                   'sum': (lambda v: 'stale'), 'round': 0, 'map': 0, 'index': 3, 'f': (lambda *a: 'stale-f'), 'g': 1, 'y': 'stale-y'})
+        elif k == 14:
+            # the same broken text twice in a row, then a valid one
+            t = r.choice(['x = 1\ny = (', '40 +', 'a = 1\nb = 2 3', '[1, 2', 'q = 1; w = ?'])
+            for _ in range(2):
+                try:
+                    P.eval(t, {})
+                except Exception:
+                    pass
+            P.eval('1')
+        elif k == 0:
             P.parse(r.choice(['f(1, ', '[1, [2, ', '{"a": (', '1 + 2)', 'x = ]', '(((', 'a = [1,\n2,\n', 'x = 1\ny = )', 'q = nope_q; z = = 1', 'a = 1\nb = 2\nc d']))
         elif k == 1:
             g = P.list_names(r.choice(['a b c d', 'x + (y * [z', 'f(a, b)', 'total = sum([a, b']))
